@@ -15,7 +15,8 @@ CONSTANTS Cfgs,          \* set of configurations [name, trace, lock, icpt, doma
           Battery,       \* "last" | "every"
           CaseExtra,     \* record merged into every emitted case (base / mirror flags ...)
           UrlProbes,     \* sequence of URL calls made after the request probes (C10)
-          RoundTrip      \* build the URL of every dispatched route from its captured parameters
+          RoundTrip,     \* build the URL of every dispatched route from its captured parameters
+          THProbes       \* requests handed to the bundled Trace helper (C18)
 
 VARIABLES rt, prevRt, last, hist, nbase
 vars == <<rt, prevRt, last, hist, nbase>>
@@ -35,6 +36,9 @@ ClF(ch, isres)           == [op |-> "clean", pat |-> "", methods |-> <<>>, mws |
 UrlP(via, strict, ch, isres, p, ps) == [op |-> "url", key |-> via, strict |-> strict, pat |-> p, params |-> ps, chain |-> ch, res |-> isres]
 Pf(p, mw) == [p |-> p, mws |-> mw]
 NoUrls == <<>>
+TH(method, path, hdr, body, flag) == [op |-> "tracehelper", method |-> method, path |-> path, hdr |-> hdr, body |-> body, flag |-> flag]
+StdTH == {TH(m, p, h, b, f) : m \in {"TRACE", "GET"}, p \in {"/", "/a<b>&'\"c"}, h \in {<<>>, [Cookie |-> "a<b"], [Accept |-> "x&y'z\"", Cookie |-> "k"]},
+                              b \in {"", "<p>&amp;'\"</p>"}, f \in BOOLEAN}
 \* probes: W = simple-valued witness of a pattern, A = any other path
 W(p, wps) == [path |-> Subst(Parse(p).atoms, wps), wit |-> p, wps |-> wps]
 A(path)   == [path |-> path, wit |-> "", wps |-> <<>>]
@@ -145,5 +149,5 @@ C03_Frame ==
 CaseOf == [fam |-> "router", cfg |-> rt.cfg @@ [lock |-> FALSE], ops |-> hist, battery |-> Battery,
            skey |-> ToString([p \in Live(rt) |-> MethodsOf(rt, p)])] @@ CaseExtra
 Emit == (Len(hist) > nbase /\ (EmitAll \/ Len(hist) - nbase = Depth)) => PrintT("CASE " \o ToJson(CaseOf))
-PoolLine == PrintT("POOL " \o ToJson([pool |-> [probes |-> Probes, methods |-> ProbeMethods, urls |-> UrlProbes, rt |-> RoundTrip]]))
+PoolLine == PrintT("POOL " \o ToJson([pool |-> [probes |-> Probes, methods |-> ProbeMethods, urls |-> UrlProbes, rt |-> RoundTrip, th |-> THProbes]]))
 =============================================================================
